@@ -25,7 +25,6 @@ INT_RE = re.compile(r"^-?\d+$")
 
 F9 = "F9-content-security-skips-other-methods"
 XURI = "content-security-x-request-uri-overrides-path"
-CHUNK = "cryption-skips-unknown-length-body"
 
 
 def jd(o):
@@ -67,7 +66,7 @@ def res_term(s):
 class C18(Property):
     id = "C18"
     title = "Authentication gates: protected handlers run only for valid credentials"
-    quick_cases = 1000
+    quick_cases = 800
     thorough_cases = 9000
     design_ref = "DESIGN.md §6/C18"
     proof_targets = ["theories/C18/Props.vo", "theories/C18/Pinned.vo", "theories/C18/GenProofs.vo",
@@ -85,7 +84,7 @@ class C18(Property):
     level_note = ("Trusted: Coq kernel + vm_compute; hand-written models; golang-jwt/v4 (segment/JSON parsing, alg registry), "
                   "Go crypto and encoding/base64; unforgeability of HMAC/RSA/AES is a computational assumption, the theorems "
                   "carry explicit no-collision hypotheses. Known findings: F9 (methods other than DELETE/GET/POST/PUT are not "
-                  "verified), X-Request-Uri overrides the signed path/query, bodies of unknown length are not decrypted.")
+                  "verified), X-Request-Uri overrides the signed path/query. Fixed: F16 unpad, bodies of unknown length (f372be8).")
     rule = ("jwt cases: 3-8 requests through one Authorize middleware (secret, optional previous secret), each a valid token or "
             "one of ~45 single-field mutation classes; cs/crypt cases: one signed (optionally AES-ECB encrypted) request with at "
             "most two mutations out of ~55 classes; eng cases: the same request sent to one route of a real rest.Server "
@@ -132,10 +131,10 @@ class C18(Property):
         base = {"method": "POST", "path": "/a", "query": "x=1", "body": "hello", "aeskey": k16, "fp": "A", "rsa": "A",
                 "hdr": "normal", "resp": "world"}
 
-        def cs(strict=True, tol=100, keys=("A",), **kw):
+        def cs(strict=True, tol=100, keys=("A",), wrap=False, **kw):
             r = dict(base)
             r.update(kw)
-            return {"kind": "cs", "strict": strict, "tol": tol, "keys": list(keys), "req": r}
+            return {"kind": "cs", "strict": strict, "tol": tol, "keys": list(keys), "req": r, "wrap": wrap}
 
         def jr(**kw):
             r = {"now": 1000, "auth": "bearer", "header": hs, "payload": pay, "signkey": "s1", "signalg": "HS256"}
@@ -162,6 +161,26 @@ class C18(Property):
             cs(enc=True, chunked=True),
             # window edges
             cs(tol=5, toff=5), cs(tol=5, toff=-5), cs(tol=5, toff=6), cs(tol=5, toff=-6),
+            # secret attribute that is not base64 / spans several RSA blocks / made by go-zero's own encrypter
+            cs(rsa="notb64"), cs(secpad=200), cs(secpad=150, gzenc=True), cs(gzenc=True, enc=True),
+            # lying Content-Length on an encrypted body, response under an unusable key, flush/hijack through the cryption writer
+            {"kind": "crypt", "req": dict(base, enc=True, clenadd=4)}, {"kind": "crypt", "req": dict(base, enc=True, clenadd=-4)},
+            {"kind": "crypt", "req": dict(base, method="GET", body="", enc=False, aeskey="short")},
+            {"kind": "crypt", "req": dict(base, enc=True, flush=True), "wrap": True},
+            cs(enc=True, flush=True, wrap=True),
+            # the same raw token on one middleware: valid, then after exp; an expired token signed with the previous
+            # secret after the current one has more hits (the reported error shows the order of attempts)
+            {"kind": "jwt", "secret": "s1", "prev": "s0", "cb": 1, "reqs": [
+                jr(), jr(), jr(signkey="s0"), jr(now=2000), jr(now=2000, signkey="s0"), jr(signkey="s0"), jr(signkey="s0"),
+                jr(signkey="s0"), jr(now=2000), jr(now=2000, signkey="s0")]},
+            {"kind": "jwt", "secret": "s1", "prev": "s0", "cb": 2, "reqs": [jr(now=2000), jr(), jr(auth="missing")]},
+            {"kind": "tp", "reset": True, "calls": [
+                {"secret": "s1", "prev": "s0", "req": jr()}, {"secret": "s1", "prev": "s0", "req": jr()},
+                {"secret": "s1", "prev": "s0", "req": jr(now=2000)}, {"secret": "s0", "prev": "s1", "req": jr(now=2000)},
+                {"secret": "s2", "prev": "", "req": jr()}, {"secret": "s2", "prev": "s1", "req": jr()}]},
+            {"kind": "tp", "reset": False, "calls": [
+                {"secret": "s1", "prev": "s0", "req": jr()}, {"secret": "s1", "prev": "s0", "req": jr()},
+                {"secret": "s1", "prev": "s0", "req": jr(now=2000)}, {"secret": "s1", "prev": "s0", "req": jr(signkey="s0", now=2000)}]},
         ]
 
     # ------------------------------------------------------------------ generators
@@ -1019,7 +1038,7 @@ class C18(Property):
                     j["now"] = j["now"] + rng.choice([0, 1, 3600, 10 ** 6])
             reqs.append({"tgt": ti, "donor": di, "j": j, "cs": r})
         return {"kind": "srv", "sgroups": groups, "sreqs": reqs, "uacb": rng.random() < 0.6, "uscb": rng.random() < 0.3,
-                "usemw": rng.random() < 0.5}
+                "usemw": rng.random() < 0.5, "natives": rng.random() < 0.3}
 
     def _chain_view(self, case, o):
         # the chained JWT token is classified by the executor in o["jwtview"]
@@ -1046,14 +1065,13 @@ class C18(Property):
         return True
 
     def known(self, case, obs):
-        """Only the three shapes described in KNOWN_FINDINGS.jsonl, each as narrow as its text:
+        """Only the two shapes described in KNOWN_FINDINGS.jsonl (kind "known"), each as narrow as its text:
         F9     strict signature group, method outside the verified ones, handler ran unsigned, and NOTHING else is
                wrong (JWT valid where required, body handed over and response sent as they are);
         XURI   strict, verified method, X-Request-Uri parses to a path/query other than the URL's, and the request
                IS correctly signed (fingerprint, secret, window, MAC) for the header's path/query;
-        CHUNK  (only while the tree lacks the unknown-length repair) honest encrypted request, ContentLength exactly
-               -1, non-empty body, the gate otherwise satisfied, handler saw exactly the wire bytes and the response
-               is what the model says (encrypted by the stand-alone handler, plain behind content security)."""
+        (cryption-skips-unknown-length-body is FIXED in /repo, f372be8: nothing is suppressed for it any more;
+        a tree without the repair gives VIOLATION.)"""
         if case["kind"] in ("jwt", "hdr", "tp", "srv"):
             return None
         o = obs["cs"]
@@ -1088,12 +1106,6 @@ class C18(Property):
                     and self._signed_spec(case, v, use_xuri=True) and o["status"] == 200):
                 return XURI
             return None
-        if dec_fail and not gate_fail and not _C.get("unknown_length_fix"):
-            if (q.get("chunked") and v["contentlen"] == -1 and v["wire"] != "" and o["ran"] and o["status"] == 200
-                    and o["seen"] == v["wire"]
-                    and ((crypt and ((q["resp"] == "" and o["respraw"] == "") or o.get("respplain") == resp_hex))
-                         or (not crypt and o["respraw"] == resp_hex))):
-                return CHUNK
         return None
 
     # ------------------------------------------------------------------ evidence
@@ -1210,6 +1222,8 @@ class C18(Property):
                 del c["req"][k]
                 res.append(c)
         for k, dflt in (("body", ""), ("resp", ""), ("query", ""), ("path", "/a"), ("toff", 0)):
+            if case["kind"] == "eng" and k in ("path", "query"):
+                continue                      # the path selects the route
             if case["req"].get(k) != dflt:
                 c = json.loads(json.dumps(case))
                 c["req"][k] = dflt
